@@ -439,6 +439,59 @@ def body_of(tree, ctx, k=""):
 # op-assignment through a target path that contains calls: `pk(1).n += 3`, `xs[nxt(1)] *= 2`, `a.me(1).n -= 3` ... every call of the path is
 # evaluated exactly once (the value is read from and written to the SAME slot), whatever the operator; the calls log and are not idempotent
 # (pk alternates between two objects, nxt advances a cursor), so a second evaluation shows in the log and in the final state
+# ZERO-ARGUMENT CALLS as operands: a recursive `self()` of a function without parameters (recursion bounded by a captured counter), a zero-argument logging
+# function, next to logging leaves with an argument and constants, under the short-circuit operators and their neighbours.  tree := leaf | (op, tree, tree) | ("!", tree)
+ZR_LEAVES = ["S", "Z", "bt", "bf", "ct", "cf"]       # S = self(), Z = zb() (logs, returns true), bt / bf = bv(i, true / false), ct / cf = constants
+ZR_OPS = ["&&", "||", "^", "=="]
+
+
+def zr_trees(depth, leaves=ZR_LEAVES, ops=ZR_OPS):
+    if depth == 0:
+        for l in leaves:
+            yield (l,)
+        return
+    for op in ops:
+        for a in zr_trees(depth - 1, leaves, ops):
+            for b in leaves:
+                yield (op, a, (b,))
+                if depth > 1:
+                    yield (op, (b,), a)
+    for a in zr_trees(depth - 1, leaves, ops):
+        yield ("!", a)
+
+
+def zr_program(tree, base, host):
+    cnt = [0]
+
+    def ex(n):
+        k = n[0]
+        if k == "S":
+            return ("selfcall", [])
+        if k == "Z":
+            return ("call", V("zb"), [])
+        if k in ("bt", "bf"):
+            cnt[0] += 1
+            return ("call", V("bv"), [("int", cnt[0]), ("bool", k == "bt")])
+        if k in ("ct", "cf"):
+            return ("bool", k == "ct")
+        if k == "!":
+            return ("not", ex(n[1]))
+        return ("bin", k, ex(n[1]), ex(n[2]))
+    bv = ("assign", "bv", ("fn", [("i", "int"), ("v", "bool")], "bool", [("print", ("bin", "+", ("str", "b "), V("i"))), ("return", V("v"))]), None, ())
+    zb = ("assign", "zb", ("fn", [], "bool", [("print", ("str", "z")), ("return", ("bool", True))]), None, ())
+    body = [("assign", "dq", ("bin", "+", V("dq"), ("int", 1)), None, ("modify",)), ("print", ("bin", "+", ("str", "enter "), V("dq"))),
+            ("if", ("bin", ">=", V("dq"), ("int", 3)), [("return", ("bool", base))], None)]
+    e = ex(tree)
+    if host == "return":
+        body += [("return", e)]
+    elif host == "if":
+        body += [("if", e, [("return", ("bool", True))], None), ("return", ("bool", False))]
+    else:
+        body += [("assign", "res", e, None, ()), ("return", V("res"))]
+    rz = ("assign", "rz", ("fn", [], "bool", body), None, ())
+    return [bv, zb, ("assign", "dq", ("int", 0), None, ()), rz, ("print", ("call", V("rz"), [])), ("print", V("dq")), ("print", ("str", "end"))]
+
+
 OPA_FORMS = {
     "pk.n": ("field", ("call", V("pk"), [("int", 1)]), "n"),
     "same.n": ("field", ("call", V("same"), [("int", 1)]), "n"),
@@ -551,6 +604,7 @@ class C15(Check):
             "performed too late or too early is visible, in the op-assignment layer statements `path op= rhs` whose target path contains logging, non-idempotent calls (8 path forms x 5 operators x 3 right-hand sides x 3 contexts: every call exactly once, value read from and written to the same slot), in the slot-leaf layers silent reads of a list element / object field next to calls that log and write that very slot, and - in the constant-leaf layers - literals (true, false, 2, 0) next to logging siblings; nodes: every binary operator of the language (+ - * / % & | xor << >> < <= > >= == != && || ^), string concatenation, "
             " f2..f4(E,..), obj.m(E,E), five further callee forms of a two-argument call (function literal called on the spot, function in a field through the object "
             "and through a parenthesised lookup, function from a list element, function returned by a call), list literal [E,E,E], list literal + index, map literal {E:E,E:E}, B&&B, B||B, !B, (O) or E; "
+            "zero-argument calls as operands (a recursive self() of a parameterless function, a parameterless logging function) under && || ^ == ! at depth <= 2 in return / if / assignment position; "
             "all trees of depth <=1, depth 2 with every child arbitrary for unary/binary nodes, depths 2-4 by rule 1 (one arbitrary child, "
             "siblings over all leaves); statement contexts print / assignment / if condition / while condition / call argument / return.")
     assumptions = ["leaf values are small so that no arithmetic overflow occurs", "map literal observed through its length only",
@@ -570,7 +624,10 @@ class C15(Check):
         sm = {}
         s3 = [n for t in ("I", "B") for n in trees_spine(3, t, sm) if tdepth(n) == 3]
         opa = [("#opa", f, o, r, c) for f in OPA_FORMS for o in OPA_OPS for r in OPA_RHS for c in OPA_CTX]
-        ls = [("Lo-op-assignment-through-target-paths-with-calls", opa), ("L0-depth1-all-contexts", L0), ("L1-depth2-rule1", [(n, "print") for n in r2]),
+        zleaves = ZR_LEAVES if tier == "thorough" else ["S", "Z", "bt", "bf"]
+        zr = [("#zr", t, b, h) for d in (1, 2) for t in zr_trees(d, zleaves if d == 2 else ZR_LEAVES, ZR_OPS if (d == 1 or tier == "thorough") else ["&&", "||"])
+              if "S" in repr(t) or "Z" in repr(t) for b in (False, True) for h in (("return", "if", "assign") if d == 1 else ("return",))]
+        ls = [("Lz-zero-argument-calls-(recursive-self(),-logging)-under-short-circuit-operators", zr), ("Lo-op-assignment-through-target-paths-with-calls", opa), ("L0-depth1-all-contexts", L0), ("L1-depth2-rule1", [(n, "print") for n in r2]),
               ("Lp-depth2-operator-pairs-minimal-parentheses", [(n, "print", "min") for n in r2 if syntactic_chain(n, 2)])]
         with leafset(I=IV_LEAVES + [("t",)], B=BV_LEAVES + [("bt",)]):
             v1 = depth1()
@@ -630,6 +687,8 @@ class C15(Check):
             return {"group": [repr(c[0]) for c in case[1]]}
         if case[0] == "#opa":
             return {"target": case[1], "operator": case[2], "right-hand side": case[3], "context": case[4]}
+        if case[0] == "#zr":
+            return {"zero-argument-call tree": repr(case[1]), "value at the recursion bound": case[2], "position": case[3]}
         return {"tree": repr(case[0]), "context": case[1], "rendering": "minimal parentheses" if len(case) > 2 else "fully parenthesised"}
 
     batch = 8
@@ -676,8 +735,26 @@ class C15(Check):
             results[k] = self.ok_result(tree, ctx + ("~minparen" if minp else ""), len(exp.get(k, [])))
         return results, detail
 
+    def run_zr(self, case):
+        _, tree, base, host = case
+        ast = zr_program(tree, base, host)
+        src = refint.program(ast)
+        it = refint.Interp()
+        ok, failure = it.run(ast)
+        res = driver.run_ms(src)
+        lines = res.lines()
+        if driver.compile_rejected(res):
+            return {"outcome": "rejected", "nontrivial": False, "tags": ["rejected", "zr-rejected"], "show": res.out[-300:]}
+        if not ok:
+            return {"outcome": "model-failure", "nontrivial": False, "tags": ["model-failure"]}
+        viol = []
+        if res.exit != 0 or lines != it.out:
+            viol.append({"sig": {"kind": "zero-arg-call-operand", "ops": ",".join(sorted(set(_ops(tree)))), "ctx": host},
+                         "what": f"{tree!r} (base {base}, {host}): expected {it.out}, got exit {res.exit} and {lines}", "detail": {"files": {"x.ms": src}, "res": res.brief(), "expected_lines": it.out}})
+        return {"outcome": "zr-ok" if not viol else "zr-DIFF", "viol": viol, "nontrivial": True, "tags": ["zr"], "counters": {"states": len(it.out) + 1, "transitions": len(it.out)}}
+
     def run_batch(self, cases):
-        if any(c[0] == "#opa" for c in cases):
+        if any(c[0] in ("#opa", "#zr") for c in cases):
             return [self.run_case(c) for c in cases]
         return self.run_group(cases)[0]
 
@@ -724,6 +801,8 @@ class C15(Check):
                                       f"passes on its own: {[c[0] for c in case[1]]!r}", "detail": detail}]}
         if case[0] == "#opa":
             return self.run_opa(case)
+        if case[0] == "#zr":
+            return self.run_zr(case)
         tree, ctx = case[0], case[1]
         minp = len(case) > 2
         ast = build(tree, ctx)
